@@ -5,13 +5,23 @@ import tys as T
 
 class IntV:
     """integer of a machine type. p: exact integer value as a Poly; bv: per-bit 0/1 polys."""
-    __slots__ = ("bits", "signed", "p", "bv")
+    __slots__ = ("bits", "signed", "p", "bv", "hint")
 
-    def __init__(self, bits, signed, p=None, bv=None):
+    def __init__(self, bits, signed, p=None, bv=None, hint=None):
         self.bits = bits
         self.signed = signed
         self.p = p
         self.bv = bv
+        self.hint = hint      # (lo, hi) known from the structure of a merge (hull of the branches)
+
+    def range0(self):
+        """range from the polynomial's atoms alone, intersected with the structural hint"""
+        lo, hi = self.poly().range()
+        if self.hint is not None:
+            hlo, hhi = self.hint
+            lo = hlo if lo is None else max(lo, hlo)
+            hi = hhi if hi is None else min(hi, hhi)
+        return lo, hi
 
     def poly(self):
         if self.p is None:
@@ -196,9 +206,13 @@ def mk_ite(c, a, b):
             abv = bits_of_const(a.p.const_value() & ((1 << a.bits) - 1), a.bits)
         if bbv is None and abv is not None and b.p is not None and b.p.const_value() is not None:
             bbv = bits_of_const(b.p.const_value() & ((1 << b.bits) - 1), b.bits)
+        ra, rb = a.range0(), b.range0()
+        hint = None
+        if None not in ra and None not in rb:
+            hint = (min(ra[0], rb[0]), max(ra[1], rb[1]))
         if abv is not None and bbv is not None:
-            return IntV(a.bits, a.signed, bv=[c * x + (ONE - c) * y for x, y in zip(abv, bbv)])
-        return IntV(a.bits, a.signed, p=c * a.poly() + (ONE - c) * b.poly())
+            return IntV(a.bits, a.signed, bv=[c * x + (ONE - c) * y for x, y in zip(abv, bbv)], hint=hint)
+        return IntV(a.bits, a.signed, p=c * a.poly() + (ONE - c) * b.poly(), hint=hint)
     if isinstance(a, BoolV) and isinstance(b, BoolV):
         return BoolV(c * a.p + (ONE - c) * b.p)
     if isinstance(a, Agg) and isinstance(b, Agg) and a.kind == b.kind and a.name == b.name \
